@@ -32,7 +32,8 @@ def _trades_placed_into_complete_trade(trace, upto):
     for i in range(1, min(upto, len(steps))):
         pre = steps[i - 1]["st"] if "st" in steps[i - 1] else trace["states"][steps[i - 1]["si"] - 1]
         for q in steps[i].get("reqs", []):
-            if q.get("kind") == "PLACE" and q.get("r") == "ACCEPT":
+            # (placed inside the strategy's own `with trade:` the trade is re-opened when the block is left: not the finding)
+            if q.get("kind") == "PLACE" and q.get("r") == "ACCEPT" and not q.get("ctx"):
                 t = q.get("t")
                 if t in pre.get("trd", {}) and pre["trd"][t]["status"] == "COMPLETE":
                     tainted.add(t)
